@@ -129,6 +129,10 @@ var structuralLaws = []struct{ name, src string }{
 	{"setpath-getpath-identity", `. as $v | all(paths; . as $p | $v | setpath($p; getpath($p)) == $v)`},
 	{"paths-eq-path-recurse-minus-root", `[paths] == ([path(..)] - [[]])`},
 	{"tostream-event-getpath", `. as $v | all(tostream | select(length == 2); . as [$p, $l] | $v | getpath($p) == $l)`},
+	// x DERIVED FROM THE VALUE ITSELF (slices share the backing array of what is stored at p, the
+	// whole value, the parent, a child): setpath must store exactly x
+	{"setpath-getpath-derived", `. as $v | all(paths, []; . as $p | ($v | getpath($p)) as $old | all(($old | arrays | (.[:1], .[:-1], .[1:], .[:0], .[1:2], . + [0], reverse, .[0]?)), ($old | objects | (del(.[keys[0]?]?), . + {zz: 1}, .[keys[0]?]?)), $v, ($v | getpath($p[:-1])), [$old], {o: $old}; . as $x | ($v | setpath($p; $x) | getpath($p)) == $x))`},
+	{"assign-derived", `. as $v | all(paths(arrays); . as $p | ($v | getpath($p)) as $old | all($old[:1], $old[:-1], $old[:0], $old[1:]; . as $x | ($v | getpath($p) = $x | getpath($p)) == $x))`},
 	{"tostream-replay-setpath", `(reduce (tostream | select(length == 2)) as [$p, $x] (null; setpath($p; $x))) == .`},
 }
 
